@@ -532,7 +532,15 @@ impl FarmGen {
             4 => others.choose(&mut self.rng).map(|q| q.identifier.clone()),
             _ => Some(format!("lock{}", self.n_explicit)),
         };
-        let recv = if self.rng.gen_range(0..8) == 0 { Some(w.users[0].to_string()) } else { None };
+        let mut recv = if self.rng.gen_range(0..8) == 0 { Some(w.users[0].to_string()) } else { None };
+        // aiming at somebody else's position and naming its owner as the receiver
+        if let Some(id) = &lock_id {
+            if let Some(q) = others.iter().find(|q| &q.identifier == id) {
+                if self.rng.gen_bool(0.5) {
+                    recv = Some(q.receiver.to_string());
+                }
+            }
+        }
         Some(provide_op(&sender, &pid, funds, None, None, recv, Some(self.duration()), lock_id))
     }
 
